@@ -331,7 +331,8 @@ structure ILoc where
   ids  : List Nat := []       -- instance ids of the components created so far
   deriving DecidableEq, Repr, Inhabited
 
-def counterCell : String := "instanceCounter"
+/-- the package-level variable, named as the extractor names it -/
+def counterCell : String := "interpreter.instanceCounter"
 
 /-- One step of a parse creating runtime components. `atomic = true`: `atomic.AddUint64` — the
     counter is incremented and the new value taken in one step. `atomic = false`: `counter++`
@@ -444,6 +445,44 @@ def storesLocal : Bool → List (String × String) → Bool
 def setupKeepsLocal (setup : List (String × String)) (required : List String) : Bool :=
   storesLocal true setup &&
   required.all fun n => setup.any fun c => (c.1 = "SetValue" || c.1 = "SetLocalValue") && c.2 = n
+
+/-- `idSys` writes the counter cell only -/
+theorem idSys_writes_counter (atomic : Bool) : WritesWithin (idSys atomic) (· = counterCell) := by
+  intro t g l x hx
+  simp only [idSys, idStep]
+  split
+  · rfl
+  · split
+    · simp [hx]
+    · split
+      · rfl
+      · simp [hx]
+
+/-! ## Product of two systems over the same cell names -/
+
+/-- both components step together; the store holds a pair per cell -/
+def prodSys {X VA VB LA LB : Type} (a : Sys X VA LA) (b : Sys X VB LB) : Sys X (VA × VB) (LA × LB) :=
+  ⟨fun t g l =>
+    let ra := a.step t (fun x => (g x).1) l.1
+    let rb := b.step t (fun x => (g x).2) l.2
+    (fun x => (ra.1 x, rb.1 x), (ra.2, rb.2))⟩
+
+theorem prodSys_writesWithin {X VA VB LA LB : Type} (a : Sys X VA LA) (b : Sys X VB LB) (A : X → Prop)
+    (ha : WritesWithin a A) (hb : WritesWithin b A) : WritesWithin (prodSys a b) A := by
+  intro t g l x hx
+  simp only [prodSys]
+  rw [ha t _ _ x hx, hb t _ _ x hx]
+
+/-- the first component is confined w.r.t. `A` in the product if, alone, its local state depends on
+    the store only through cells outside `A` -/
+theorem prodSys_confined_fst {X VA VB LA LB : Type} (a : Sys X VA LA) (b : Sys X VB LB) (A : X → Prop)
+    (ha : ∀ t g g' l, (∀ x, ¬ A x → g x = g' x) → (a.step t g l).2 = (a.step t g' l).2) :
+    Confined (prodSys a b) A (fun l : LA × LB => l.1) := by
+  intro t g g' l l' hg hl
+  simp only at hl
+  simp only [prodSys]
+  rw [hl]
+  exact ha t _ _ _ (fun x hx => by rw [hg x hx])
 
 /-! ## An explicitly shared, lock-protected global (example system) -/
 
